@@ -32,3 +32,13 @@ Print Assumptions C09_from_clock.
 Example C09_boundary_example :
   let t := 362 * (1024 * B) - 1 in 0 <= t /\ t / (1024 * B) = 361 /\ (t / (32 * B)) mod 32 = 31 /\ (t / B) mod 32 = 31.
 Proof. vm_compute. intuition discriminate. Qed.
+
+(* ---- the source function tied to the model (flow): the regenerated _get_protection_gke_from_cache, run in the world of
+   Flow/World_e2e.v in which time.time_ns() returns time_ns, returns the envelope Model/Client.v protection_gke_from_cache
+   returns, whose (l0, l1, l2) are interval_of_time_ns time_ns (the cache after the call is not a return value) *)
+From V Require Import Prelude.PyAst Prelude.PyWorld gen.F_e2e Model.Client Flow.World_e2e Proofs.Flow_e2e_gke.
+Theorem C09_flow_get_protection_gke_from_cache : forall c rnd_cek rnd_iv rnd_kek time_ns fuel rkid target_sd cache,
+  run (WR c rnd_cek rnd_iv rnd_kek time_ns) fuel k_flow_get_protection_gke_from_cache [vopt_uuid rkid; VB target_sd; VO (OCache cache)]
+  = (let* (e, _) := protection_gke_from_cache c cache rkid target_sd time_ns in Ok (vopt_env e)).
+Proof. exact flow_get_protection_gke_from_cache. Qed.
+Print Assumptions C09_flow_get_protection_gke_from_cache.
